@@ -44,7 +44,17 @@ type Closure struct {
 
 // BigVal is the mathematical integer held by a big.Int (or a type with the
 // same underlying struct, such as interpreter.MonetaryInt).
-type BigVal struct{ T *smt.Term }
+type BigVal struct {
+	T *smt.Term
+	// Lazy: the value is the numerator (Num) or denominator of N/D in lowest terms,
+	// not yet computed; Int.Div of such a pair is floor(N/D) without normalising.
+	Lazy *normPart
+}
+
+type normPart struct {
+	N, D *smt.Term
+	Num  bool
+}
 
 // RatVal is num/den held by a big.Rat; den > 0 always. The pair is NOT
 // necessarily in lowest terms: Num()/Denom()/String() normalise on demand.
@@ -116,7 +126,7 @@ func isRatLike(vm *VM, t types.Type) bool {
 // zero returns the zero value of t.
 func (vm *VM) zero(t types.Type) Value {
 	if isBigLike(vm, t) {
-		return BigVal{smt.Int64(0)}
+		return BigVal{T: smt.Int64(0)}
 	}
 	if isRatLike(vm, t) {
 		return RatVal{smt.Int64(0), smt.Int64(1)}
@@ -299,6 +309,9 @@ func describeDepth(v Value, d int) string {
 	case *SymStr:
 		return x.describe()
 	case BigVal:
+		if x.T == nil {
+			return "big(lazy)"
+		}
 		return "big(" + x.T.String() + ")"
 	case RatVal:
 		return "rat(" + x.N.String() + "/" + x.D.String() + ")"
